@@ -21,7 +21,7 @@ import tempfile
 from pathlib import Path
 
 from ..core import Family
-from ..sim.client_pki import CA_CERTS, LOOKALIKES, TWIN_CERTS, TWIN_OF
+from ..sim.client_pki import CA_CERTS, DOTTED, LOOKALIKES, TWIN_CERTS, TWIN_OF
 from ..sim.client_storefault import store_fault
 
 ID = "C03"
@@ -57,8 +57,10 @@ TECHNIQUE = "interactive theorem proving (Lean 4, induction over histories) + mo
 SHM = "/dev/shm" if os.path.isdir("/dev/shm") and os.access("/dev/shm", os.W_OK) else None
 
 # host index -> name; 0..2 are served by name/address, 3.. are the look-alike names (resolved to 127.0.0.1 by the harness)
-HOSTS = ["localhost", "127.0.0.1", "127.0.0.2"] + list(LOOKALIKES)
+# the last ones (DOTTED_FIRST..) are absolute DNS names ("localhost."): used by C11 only
+HOSTS = ["localhost", "127.0.0.1", "127.0.0.2"] + list(LOOKALIKES) + list(DOTTED)
 N_PLAIN_HOSTS = 3
+DOTTED_FIRST = N_PLAIN_HOSTS + len(LOOKALIKES)
 # certificate index -> name in the peer's CertStore; 4 = expired (notAfter in the past), 5 = not valid yet,
 # 6..8 = three certificates issued by the harness CA (for clients that verify the chain: verify_ssl=True)
 # 9.. = LOOK-ALIKE certificates (sim/client_pki.py): other DER, but the issuer + serial number (+ subject, validity) of another
@@ -82,11 +84,17 @@ AGES = [1, 30, 364, 366, 400, 3650, -30]
 NEWCLIENT_FAULTS = ["", "locked", "open", "write"]
 
 
+def compact(ops) -> str:
+    import json
+
+    return json.dumps(ops, separators=(",", ":")) if ops else "none"
+
+
 def cert_desc(ci: int) -> str:
     n = CERTS[ci]
     if n in TWIN_OF:
-        return (f"{n!r} (a different certificate - other DER, other SHA-256 - made to look like {TWIN_OF[n]!r}: "
-                + ("same key, subject and validity, another serial number)" if n == "tw_key" else "same subject, issuer, serial number and validity around another key)"))
+        return (f"{n!r} (another DER - " + ("the key, subject and validity of" if n == "tw_key" else "another key around the subject, issuer, SERIAL NUMBER and validity of")
+                + f" {TWIN_OF[n]!r})")
     return repr(n)
 
 
@@ -135,7 +143,7 @@ class Runner:
         self.T = T
         self.w = T.world()
         self.pki = client_pki.ensure(self.w)           # CA-issued server certificates, CA file, a client identity
-        client_pki.install_resolver(LOOKALIKES)        # the look-alike names lead to the loopback peers
+        client_pki.install_resolver(LOOKALIKES + DOTTED)   # the look-alike names lead to the loopback peers
         self.peers = self.w["peers"]
         self.fps = fp_table(self.w)
         self.fpid = {f: i for i, f in enumerate(self.fps)}
@@ -790,7 +798,7 @@ class Histories(Family):
                             break
                     elif pin != pres:
                         if not last or res[0] == "ok":
-                            return ("accepted-with-different-cert", f"{where}: hop {j} to {key} ({HOSTS[h]!r}) pinned to fingerprint {pin} presented {pres} = certificate {cert_desc(cert)} and was accepted (result {res}, {len(conns)} connections; client certificate: {bool(case.get('ident'))}, store operations on the client's own store object: {bool(case.get('own'))}, a new client object per call: {bool(case.get('fresh'))}); history so far {case['ops'][:i + 1]!r}")
+                            return ("accepted-with-different-cert", f"{where}: hop {j} to {key} ({HOSTS[h]!r}) pinned to fingerprint {pin} presented {pres} = certificate {cert_desc(cert)} and was accepted (result {res}, {len(conns)} connections); steps before: {compact(case['ops'][:i])}; client certificate: {bool(case.get('ident'))}, store operations on the client's own store object: {bool(case.get('own'))}, a new client object per call: {bool(case.get('fresh'))}")
                         if res[0] != "changed":
                             return ("changed-not-reported", f"{where}: hop {j} pinned {pin}, presented {pres}: result {res} is not a certificate-changed error")
                         if res[1:] != [pin, pres, h, p]:
@@ -805,7 +813,9 @@ class Histories(Family):
                     touched = set(op_keys(op))
                     if any(kk not in touched for kk in bad):
                         return ("other-key-influenced", f"{where}: pins of {[kk for kk in bad if kk not in touched]} changed by a call that did not name them")
-                    return ("first-use-not-pinned", f"{where}: store after the accepted call is {sorted(after.items())}, expected {sorted(exp.items())}; history so far {case['ops'][:i + 1]!r}")
+                    shown = ", ".join(f"{CERTS[hp[2]]!r} (fingerprint {CERT_FP[hp[2]]})" for hp in hops)
+                    return ("first-use-not-pinned", f"{where}: the accepted call was shown {shown}; store afterwards {sorted(after.items())}, the property requires {sorted(exp.items())}; "
+                                                    f"steps before: {compact(case['ops'][:i])}; a new client object per call: {bool(case.get('fresh'))}; certificates: {'; '.join(cert_desc(hp[2]) for hp in hops)}")
                 cur = after
             else:
                 # store operations: only the frame part of the property is checked here (C12 owns their semantics)
@@ -815,7 +825,7 @@ class Histories(Family):
                     if after != cur:
                         what = (f"{op[1]} days passed without anybody touching the store" if k == "age" else
                                 f"one more GeminiClient was built on the store (store file: {op[1] or 'in order'}; constructor raised: {st.get('raised')})")
-                        return ("pins-changed-without-operation", f"{where}: {what}; pins before {sorted(cur.items())}, after {sorted(after.items())}; history so far {case['ops'][:i + 1]!r}")
+                        return ("pins-changed-without-operation", f"{where}: {what}; pins before {sorted(cur.items())}, after {sorted(after.items())}; steps before: {compact(case['ops'][:i])}")
                     cur = after
                     continue
                 if k in ("trust", "revoke"):
@@ -986,7 +996,7 @@ class Configured(Histories):
                 if len(hosts) > 3:
                     hosts = rng.sample(hosts, rng.choice([2, 3, 4]))
             else:
-                hosts = rng.sample(range(len(HOSTS)), 3)
+                hosts = rng.sample(range(DOTTED_FIRST), 3)
             allkeys = [(h, p) for h in hosts for p in range(2)]
             keys = rng.sample(allkeys, rng.choice([2, 3, 4, len(allkeys)]) if len(allkeys) >= 4 else len(allkeys))
             own = rng.random() < 0.6
